@@ -348,6 +348,8 @@ def check_crystals(ck, X, F, tier, st):
             data_ok[Z] = all(not is_err(v) and math.isfinite(v) for v in
                              (X.num('AtomicWeight', Z), X.num('FF_Rayl', Z, 0.0), X.num('Fi', Z, 10.0), X.num('Fii', Z, 10.0)))
         return data_ok[Z]
+    src_crystals = srctab.crystals()
+    st['crystals_in_the_data_file'] = len(src_crystals)
     for nm in names:
         _step(ck, 'crystal: lookup %r, copy, free both' % nm)
         g = X.get_crystal(nm)
@@ -362,6 +364,26 @@ def check_crystals(ck, X, F, tier, st):
         if q:
             X.lib.Crystal_Free(q)
         X.free_crystal(p)
+        # the catalogue is the compiled form of data/Crystals.dat: every entry holds the cell and the atoms its block of that file gives,
+        # to the precision the generator writes them with (six decimals, single precision)
+        srcc = src_crystals.get(nm)
+        if srcc is not None:
+            st['crystals_compared_with_the_data_file'] = st.get('crystals_compared_with_the_data_file', 0) + 1
+            close = lambda a, b: abs(a - b) <= 0.6e-6 + 1.2e-7 * abs(b)
+            cell = [d['a'], d['b'], d['c'], d['alpha'], d['beta'], d['gamma']]
+            if not all(close(a, b) for a, b in zip(cell, srcc['cell'])):
+                ck.violation('c15:crystal:entry:cell-differs-from-data-file', 'crystal %r has the cell %r, data/Crystals.dat gives %r' % (nm, cell, srcc['cell']), dict(name=nm, cell=cell, data_file=srcc['cell']))
+            elif len(d['atoms']) != len(srcc['atoms']):
+                ck.violation('c15:crystal:entry:atom-count-differs-from-data-file', 'crystal %r has %d atoms, data/Crystals.dat gives %d' % (nm, len(d['atoms']), len(srcc['atoms'])), dict(name=nm))
+            else:
+                for k, (a_, b_) in enumerate(zip(d['atoms'], srcc['atoms'])):
+                    if a_[0] != b_[0] or not all(close(x, y) for x, y in zip(a_[1:], b_[1:])):
+                        what = 'Z' if a_[0] != b_[0] else ('occupancy' if not close(a_[1], b_[1]) else 'position')
+                        ck.violation('c15:crystal:entry:atom-differs-from-data-file:' + what, 'crystal %r atom %d is %r, data/Crystals.dat gives %r' % (nm, k, tuple(a_), b_),
+                                     dict(name=nm, atom=k, catalogue=list(a_), data_file=list(b_)))
+                        break
+                else:
+                    F.ok('crystal:entry==data-file', len(d['atoms']))
         if d['name'] != nm:
             ck.violation('c15:crystal:by-name-returns-other-entry', 'Crystal_GetCrystal(%r) returned the crystal named %r' % (nm, d['name']), dict(name=nm, returned=d['name']))
         else:
@@ -962,6 +984,8 @@ def main(tier):
                mass_fractions=st['fractions'], mass_fractions_finer_than_6_decimals=st['fractions_finer_than_6_decimals'],
                worst_sum_deviation=st['worst_sum_deviation'], worst_sum_entry=st['worst_sum_entry'],
                nuclide_xray_lines=st['nuclide_lines'], crystal_atoms=st['crystal_atoms'],
+               entries_compared_with_their_source=dict(nist_table_rows=st.get('source_table_rows'), nist_entries=st.get('copies_compared_with_source_table'),
+                                                       crystals_in_data_file=st.get('crystals_in_the_data_file'), crystals=st.get('crystals_compared_with_the_data_file')),
                deep_copy_sequences=seqs, asan_lookups=st['asan_calls'])
     return ck.finish(cov, ['macro values come from a compiled probe of the public headers; macro names are matched to API names after reducing both '
                            'to upper-case alphanumerics (checked to be injective on the catalogue)',
